@@ -39,7 +39,9 @@ def gen_set(rnd):
         elif r < 0.7:
             L.append('Pod=' + rnd.choice(['missing.pod', 'notapod', 'x.container', '']))
         if rnd.random() < 0.5:
-            L.append('StartWithPod=' + rnd.choice(['no', 'yes', 'false', 'true', '', '0']))
+            L.append('StartWithPod=' + rnd.choice(['no', 'yes', 'false', 'true', '', '0', '1', 'on', 'off',
+                                                    # spellings that are not boolean words: anything but a true word opts out
+                                                    'False', 'No', 'OFF', 'n', 'x', '2', 'TRUE', 'y']))
         if rnd.random() < 0.3:
             L.append('ServiceName=' + rnd.choice(['csvc-' + s.replace('@', ''), 'c svc']))
         if rnd.random() < 0.1:
@@ -152,7 +154,7 @@ def oracle(ctx):
 # whole runs with drop-ins: the wiring must be *consistent* between the two sides whatever the names are derived from
 
 DROPIN_LINES = {'pod': ['ServiceName=pd-svc', 'ServiceName=other pod', 'PodName=pn-drop', 'PodmanArgs=--x'],
-                'container': ['ServiceName=cd-svc', 'ContainerName=cn-drop', 'StartWithPod=no', 'StartWithPod=yes', 'StartWithPod=', 'PodmanArgs=--y']}
+                'container': ['ServiceName=cd-svc', 'ContainerName=cn-drop', 'StartWithPod=no', 'StartWithPod=yes', 'StartWithPod=', 'StartWithPod=False', 'StartWithPod=n', 'PodmanArgs=--y']}
 
 
 def gen_tree(rnd):
